@@ -361,6 +361,27 @@ func Run(tier string) int {
 		rn.one("number", []content.Operator{op("Td", a, b), op("d", pdf.Array{a, b}, a)}, seqOpts{chunks: []int{1}, split: 2, independent: true})
 	})
 
+	// reals by digit structure: every number of significant digits x every position of the decimal point
+	reals, rst := realFamily(r.Thorough())
+	r.Dim("real_significant_digits", []int{1, realMaxDigits})
+	r.Dim("real_digit_strings_per_length", rst.digitStringsPerN)
+	r.Dim("real_digit_string_families", ev.Pick(r,
+		[]string{"all 9", "1 0..0 1", "1234567890123456789 cut", "neighbours of 2^53 (3) and 2^63 (2) cut / scaled by 10^k"},
+		[]string{"all 9", "1 0..0 1", "1234567890123456789 cut", "neighbours of 2^53 (3) and 2^63 (2) cut / scaled by 10^k", "every digit 1..8 repeated", "digits of 1/7", "6..67"}))
+	r.Dim("real_point_positions", "integer part of 1..n digits; no integer part with 0..3 zeros after the point")
+	r.Dim("real_decimal_literals", rst.literals)
+	r.Dim("real_float64_neighbours_of_each_literal", 2)
+	r.Dim("real_pow53_values", map[string]any{"exponents": []int{-4, 20}, "neighbours_each_side": ev.Pick(r, 1, 32), "values": rst.pow53})
+	r.Dim("real_signs", 2)
+	r.Dim("real_operands", rst.values)
+	r.Dim("real_operands_by_written_digits", rst.byWrittenDigits)
+	r.Dim("real_contexts", []string{"operand", "two in a row", "in array", "in dict", "in array in dict", "in inline image dict"})
+	realOpts := seqOpts{chunks: []int{1, 7}, split: 2, independent: true}
+	r.Par(len(reals), func(i int) {
+		rn.one("real", realSeq(reals[i]), realOpts)
+	})
+	r.Sample(Case{Space: "real", Ops: encOps(realSeq(reals[len(reals)/2]))})
+
 	lap("a_strings_names_numbers")
 	// (a) adjacency: every ordered pair of names x (last operand, first operand)
 	pairNames := names
